@@ -2,6 +2,7 @@ package netp
 
 import (
 	"fmt"
+	"sync/atomic"
 	"testing"
 	"time"
 
@@ -19,6 +20,20 @@ import (
 )
 
 const bound = 10 * time.Second
+
+// closeBound bounds "the node must hang up now" observations (typical latency: well under 1 ms).
+const closeBound = 3 * time.Second
+
+// After a first "did not hang up" failure the remaining attempts of the same process (rapid's
+// shrinking) wait only briefly, otherwise minimising one failure costs minutes.
+var noCloseSeen atomic.Bool
+
+func closeWait() time.Duration {
+	if noCloseSeen.Load() {
+		return 300 * time.Millisecond
+	}
+	return closeBound
+}
 
 func randomHeader(t *rapid.T, label string) model.RawHeader {
 	var h model.RawHeader
@@ -126,7 +141,7 @@ func TestProp_C03_peer(t *testing.T) {
 				time.Sleep(200 * time.Microsecond)
 			}
 			if verifyOnly {
-				if !s.Peer.WaitClosed(bound) {
+				if !s.Peer.WaitClosed(closeBound) {
 					t.Fatalf("verify-only node did not disconnect after verification")
 				}
 				for _, c := range []string{"sendheaders", "getaddr", "addr"} {
@@ -150,7 +165,8 @@ func TestProp_C03_peer(t *testing.T) {
 				}
 			}
 		} else {
-			if kind != "silent-close" && !s.Peer.WaitClosed(bound) {
+			if kind != "silent-close" && !s.Peer.WaitClosed(closeWait()) {
+				noCloseSeen.Store(true)
 				t.Fatalf("node did not disconnect a peer whose reply was %q (first of %d headers)", kind, len(hs))
 			}
 			if !s.RunReturned(bound) {
